@@ -185,6 +185,8 @@ NOTES = {
     'C02-mpo-numeric-fill-unmasked': 'round 5, first run: MISSED (r_C02 only built MPOs with fill="random"/"postpone"). r_C02 now also uses explicit scalar fills (real, complex, negative)',
     'C06-fermi-hubbard-memoized': 'round 5, first run: MISSED (every case called a constructor once). r_C06 overwrites the first result in place and calls the constructor again; engine F reports the caching decorator as no_state_kept_across_calls (refuted, confirmed natively)',
     'C19-opgraphnode-keeps-edge-lists': 'round 5, first run: MISSED (engine F refuted no_capture, but no bounded case confirmed it). The r_C19 constructor history builds node 0 of two graphs from the same caller-owned edge-id lists',
+    'C08-qr-keeps-integer-dtype': 'round 5, first run: MISSED by the C08 check (the C11 check has integer matrices; no TDVP/DMRG case used integer-dtype tensors). r_C08, r_C09, r_C10 now also start from integer-dtype states',
+    'C08-twosite-signature-order': 'round 5, first run: MISSED (every stand-in passed the optional parameters by keyword). r_C08 and r_C10 also use the positional form of the documented signatures',
     'C17-optree-node-children-alias': 'round 5, first run: MISSED. r_C17 builds two tree nodes from one list and extends one; engine F distinguishes keeping the *elements* of a list (allowed for nodes) from keeping the list itself',
     'C06-zero-coeff-filter-tolerance': 'first run: MISSED. r_C06 now includes parameter points scaled by 1e-9 ... 1e+12 (every parameter value is legal)',
 }
